@@ -327,14 +327,72 @@ func memoKeyedByJobQueue(v ssa.Value, pops []ssa.Instruction, depth int) bool {
 	case *ssa.Lookup:
 		return isJobQueue(x.Index)
 	case *ssa.Call:
+		cal := x.Common().StaticCallee()
+		if cal == nil {
+			return false
+		}
 		// a fresh memo is acceptable only if it is also stored under job.Queue
-		if cal := x.Common().StaticCallee(); cal != nil && cal.Name() == "NewMinimalJobRepresentatives" {
+		if cal.Name() == "NewMinimalJobRepresentatives" {
 			for _, r := range *x.Referrers() {
 				if mu, ok := r.(*ssa.MapUpdate); ok && mu.Value == ssa.Value(x) && isJobQueue(mu.Key) {
 					return true
 				}
 			}
+			return false
+		}
+		// a get-or-create helper: handed job.Queue as argument k, it returns only the table entry under its
+		// parameter k (looked up, or created and stored under that key)
+		for k, a := range x.Common().Args {
+			if isJobQueue(a) && k < len(cal.Params) && helperReturnsEntryUnderParam(cal, cal.Params[k], 4) {
+				return true
+			}
 		}
 	}
 	return false
+}
+
+// helperReturnsEntryUnderParam: every value fn returns is m[key] for a map m, or a value that fn stores into
+// a map under key (key = the given parameter).
+func helperReturnsEntryUnderParam(fn *ssa.Function, key *ssa.Parameter, depth int) bool {
+	if len(fn.Blocks) == 0 || fn.Signature.Results().Len() != 1 {
+		return false
+	}
+	var okVal func(v ssa.Value, d int) bool
+	okVal = func(v ssa.Value, d int) bool {
+		if d == 0 {
+			return false
+		}
+		switch x := v.(type) {
+		case *ssa.Phi:
+			for _, e := range x.Edges {
+				if !okVal(e, d-1) {
+					return false
+				}
+			}
+			return len(x.Edges) > 0
+		case *ssa.Extract:
+			if l, ok := x.Tuple.(*ssa.Lookup); ok {
+				return l.Index == ssa.Value(key)
+			}
+		case *ssa.Lookup:
+			return x.Index == ssa.Value(key)
+		case *ssa.Call:
+			for _, r := range *x.Referrers() {
+				if mu, ok := r.(*ssa.MapUpdate); ok && mu.Value == ssa.Value(x) && mu.Key == ssa.Value(key) {
+					return true
+				}
+			}
+		}
+		return false
+	}
+	n := 0
+	for _, b := range fn.Blocks {
+		if ret, ok := b.Instrs[len(b.Instrs)-1].(*ssa.Return); ok {
+			n++
+			if !okVal(ret.Results[0], depth) {
+				return false
+			}
+		}
+	}
+	return n > 0
 }
